@@ -277,18 +277,18 @@ class CylcWorkflowDBChecker:
         # (Outputs and flow_nums are serialised).
         if task:
             if '*' in task:
-                # Replace Cylc ID wildcard with Sqlite query wildcard.
-                task = task.replace('*', '%')
-                stmt_wheres.append("name like ?")
+                # Match the Cylc ID wildcard with a Sqlite GLOB pattern.
+                task = _wildcard_to_glob(task)
+                stmt_wheres.append("name GLOB ?")
             else:
                 stmt_wheres.append("name==?")
             stmt_args.append(task)
 
         if cycle:
             if '*' in cycle:
-                # Replace Cylc ID wildcard with Sqlite query wildcard.
-                cycle = cycle.replace('*', '%')
-                stmt_wheres.append("cycle like ?")
+                # Match the Cylc ID wildcard with a Sqlite GLOB pattern.
+                cycle = _wildcard_to_glob(cycle)
+                stmt_wheres.append("cycle GLOB ?")
             else:
                 stmt_wheres.append("cycle==?")
             stmt_args.append(cycle)
@@ -372,6 +372,26 @@ class CylcWorkflowDBChecker:
                 or TASK_OUTPUT_FAILED in outputs
             )
         )
+
+
+def _wildcard_to_glob(pattern: str) -> str:
+    """Convert a Cylc ID wildcard pattern into a Sqlite GLOB pattern.
+
+    In a Cylc ID only "*" is a wildcard. GLOB (unlike LIKE, where "_" and
+    "%" are wildcards and ASCII letters match case-insensitively) is
+    case-sensitive and its only other special characters, "?" and "[",
+    can be matched literally as one-character sets.
+
+    Examples:
+        >>> _wildcard_to_glob('foo_*')
+        'foo_*'
+        >>> _wildcard_to_glob('a?[b]*')
+        'a[?][[]b]*'
+    """
+    return ''.join(
+        f'[{char}]' if char in '?[' else char
+        for char in pattern
+    )
 
 
 def check_polling_config(selector, is_trigger, is_message):
